@@ -307,6 +307,12 @@ var RecoveryCorpus = []*SynGrammar{
 			P("S", NT("A")), P("S", NT("S"), NT("A")),
 			P("A", Lit("a"), Lit("b")), P("A", Err(), Lit("b")),
 		}},
+	{Name: "G19", Why: "an error alternative that may be the last thing in the input: recovery has to resynchronise on end of input",
+		Lex: stdLex,
+		Prods: []Prod{
+			P("Ss", NT("Ss"), NT("St")), P("Ss", NT("St")),
+			P("St", Lit("x"), Lit("="), Lit("x")), P("St", Err()),
+		}},
 	{Name: "G16", Why: "nested recovery contexts: blocks inside a list",
 		Lex: stdLex,
 		Prods: []Prod{
